@@ -82,7 +82,7 @@ fn rel_node(rng: &mut Rng, id: &str, r: &str, r2: &str) -> (String, String, bool
     let loc2 = *rng.pick(LOCS);
     let dir = *rng.pick(&["h", "H", "v", "V"]);
     // returns (kind, xml, uses_second_ref)
-    match rng.below(33) {
+    match rng.below(37) {
         0 => ("rel-dir-wh".into(), format!("<rect id=\"{id}\" xy=\"#{r}|{dir} {g}\" wh=\"{w} {h}\"/>"), false),
         1 => (
             "rel-dir-longsize".into(),
@@ -222,6 +222,29 @@ fn rel_node(rng: &mut Rng, id: &str, r: &str, r2: &str) -> (String, String, bool
             "rel-dwdh-native".into(),
             format!("<rect id=\"{id}\" x=\"{g}\" y=\"{g}\" width=\"{w}\" height=\"{h}\" dw=\"{{{{#{r}~w}}}}\" dh=\"{{{{#{r2}~h}}}}\"/>"),
             true,
+        ),
+        32 => (
+            // a block which updates its own variable while placing rows relative to r:
+            // ids {id}r0..{id}r2, callers refer to the last row
+            "rel-loop-accumulator".into(),
+            format!("<var a{id}=\"{g}\"/><loop count=\"3\" loop-var=\"k{id}\"><rect id=\"{id}r$k{id}\" xy=\"#{r}|v {{{{$a{id}}}}}\" wh=\"{w} 3\"/><var a{id}=\"{{{{$a{id} + 8}}}}\"/></loop>"),
+            false,
+        ),
+        33 => (
+            // ids generated inside a block that itself needs a reference
+            "rel-loop-ids".into(),
+            format!("<loop count=\"2\" loop-var=\"q{id}\"><rect id=\"{id}r$q{id}\" xy=\"#{r}|h {{{{$q{id} * 9 + {g}}}}}\" wh=\"{w} {h}\"/></loop>"),
+            false,
+        ),
+        34 => (
+            "rel-if-block".into(),
+            format!("<if test=\"{{{{#{r}~w + 1}}}}\"><rect id=\"{id}\" xy=\"#{r2}|{dir} {g}\" wh=\"{w} {h}\"/></if>"),
+            true,
+        ),
+        35 => (
+            "rel-for-block".into(),
+            format!("<for data=\"3, 7\" var=\"z{id}\" idx-var=\"j{id}\"><rect id=\"{id}r$j{id}\" xy=\"#{r}|{dir} $z{id}\" wh=\"{w} {h}\"/></for>"),
+            false,
         ),
         _ => (
             "rel-reuse".into(),
@@ -425,6 +448,12 @@ impl Engine for C10 {
                 if two && d2 != d1 {
                     deps.push(d2);
                 }
+                // blocks generate their ids: later nodes refer to the last one
+                let id = match kind.as_str() {
+                    "rel-loop-accumulator" => format!("{id}r2"),
+                    "rel-loop-ids" | "rel-for-block" => format!("{id}r1"),
+                    _ => id,
+                };
                 // every 6th relative node has an id computed at evaluation time
                 let (id, kind, xml) = if w.chance(1, 6) && xml.contains(&format!("id=\"{id}\"")) {
                     (
